@@ -69,7 +69,11 @@ type NilGuardResult struct {
 	Facts      map[*ssa.If][2][]ssa.Value
 	spec       *NilGuardSpec
 	vals       []ssa.Value
+	tracked    map[ssa.Value]bool
 }
+
+// Canon maps a value to the tracked thing it reads (see ngCanon).
+func (r *NilGuardResult) Canon(x ssa.Value) ssa.Value { return ngCanon(x, r.tracked) }
 
 func ngStaticCallee(cc *ssa.CallCommon) *types.Func {
 	if cc.IsInvoke() {
@@ -87,6 +91,44 @@ func ngStaticCallee(cc *ssa.CallCommon) *types.Func {
 		}
 	}
 	return nil
+}
+
+// ngTrack returns the thing to track for a parameter: the parameter itself, or - when the
+// builder spilled it because it is address-taken (a field of a struct parameter is assigned, or
+// a closure captures it) - the Alloc cell it is stored into at entry. All reads of such a
+// parameter are loads of that cell, and nil facts are recorded for the cell.
+func ngTrack(p *ssa.Parameter) ssa.Value {
+	refs := p.Referrers()
+	if refs == nil {
+		return p
+	}
+	var cell *ssa.Alloc
+	n := 0
+	for _, r := range *refs {
+		if _, ok := r.(*ssa.DebugRef); ok {
+			continue
+		}
+		n++
+		if st, ok := r.(*ssa.Store); ok && st.Val == p {
+			if a, ok := st.Addr.(*ssa.Alloc); ok {
+				cell = a
+			}
+		}
+	}
+	if n == 1 && cell != nil {
+		return cell
+	}
+	return p
+}
+
+// ngCanon maps a load of a tracked cell to the cell; other values to themselves.
+func ngCanon(x ssa.Value, tracked map[ssa.Value]bool) ssa.Value {
+	if u, ok := x.(*ssa.UnOp); ok && u.Op == token.MUL {
+		if a, ok := u.X.(*ssa.Alloc); ok && tracked[a] {
+			return a
+		}
+	}
+	return x
 }
 
 func ngIsNilConst(v ssa.Value) bool {
@@ -111,6 +153,9 @@ func ngCondFacts(cond ssa.Value, spec *NilGuardSpec, tracked map[ssa.Value]bool)
 			} else if ngIsNilConst(c.X) {
 				x = c.Y
 			}
+			if x != nil {
+				x = ngCanon(x, tracked)
+			}
 			if x != nil && tracked[x] {
 				if c.Op == token.EQL {
 					facts[1] = append(facts[1], x)
@@ -122,15 +167,15 @@ func ngCondFacts(cond ssa.Value, spec *NilGuardSpec, tracked map[ssa.Value]bool)
 	case *ssa.Extract:
 		switch t := c.Tuple.(type) {
 		case *ssa.TypeAssert:
-			if t.CommaOk && c.Index == 1 && tracked[t.X] {
-				facts[0] = append(facts[0], t.X)
+			if x := ngCanon(t.X, tracked); t.CommaOk && c.Index == 1 && tracked[x] {
+				facts[0] = append(facts[0], x)
 			}
 		case *ssa.Call:
 			if fn := ngStaticCallee(&t.Call); fn != nil {
 				if d, ok := spec.Deciders[fn]; ok && d.Flag == c.Index {
 					for _, ai := range d.Args {
-						if ai < len(t.Call.Args) && tracked[t.Call.Args[ai]] {
-							facts[1] = append(facts[1], t.Call.Args[ai])
+						if ai < len(t.Call.Args) && tracked[ngCanon(t.Call.Args[ai], tracked)] {
+							facts[1] = append(facts[1], ngCanon(t.Call.Args[ai], tracked))
 						}
 					}
 				}
@@ -138,13 +183,13 @@ func ngCondFacts(cond ssa.Value, spec *NilGuardSpec, tracked map[ssa.Value]bool)
 		}
 	case *ssa.Call:
 		if fn := ngStaticCallee(&c.Call); fn != nil {
-			if ai, ok := spec.NilPreds[fn]; ok && ai < len(c.Call.Args) && tracked[c.Call.Args[ai]] {
-				facts[1] = append(facts[1], c.Call.Args[ai])
+			if ai, ok := spec.NilPreds[fn]; ok && ai < len(c.Call.Args) && tracked[ngCanon(c.Call.Args[ai], tracked)] {
+				facts[1] = append(facts[1], ngCanon(c.Call.Args[ai], tracked))
 			}
 			if d, ok := spec.Deciders[fn]; ok && d.Flag == 0 && c.Call.Signature().Results().Len() == 1 {
 				for _, ai := range d.Args {
-					if ai < len(c.Call.Args) && tracked[c.Call.Args[ai]] {
-						facts[1] = append(facts[1], c.Call.Args[ai])
+					if ai < len(c.Call.Args) && tracked[ngCanon(c.Call.Args[ai], tracked)] {
+						facts[1] = append(facts[1], ngCanon(c.Call.Args[ai], tracked))
 					}
 				}
 			}
@@ -172,13 +217,38 @@ func NilGuardAnalyze(fn *ssa.Function, vals []ssa.Value, spec *NilGuardSpec) *Ni
 			}
 		}
 	}
+	res.tracked = tracked
+	type useSite struct {
+		instr ssa.Instruction
+		via   ssa.Value // the SSA value through which the tracked thing is used (the thing itself or a load of its cell)
+	}
 	for _, v := range vals {
 		refs := v.Referrers()
 		if refs == nil {
 			continue
 		}
+		var sites []useSite
 		for _, instr := range *refs {
-			kind := res.classify(instr, v)
+			if _, isCell := v.(*ssa.Alloc); isCell {
+				if st, ok := instr.(*ssa.Store); ok && st.Addr == v {
+					if _, isParam := st.Val.(*ssa.Parameter); isParam {
+						continue // the spill of the parameter at entry
+					}
+				}
+				if ld, ok := instr.(*ssa.UnOp); ok && ld.Op == token.MUL && ld.X == v {
+					if lr := ld.Referrers(); lr != nil {
+						for _, li := range *lr {
+							sites = append(sites, useSite{li, ld})
+						}
+					}
+					continue
+				}
+			}
+			sites = append(sites, useSite{instr, v})
+		}
+		for _, site := range sites {
+			instr := site.instr
+			kind := res.classify(instr, site.via)
 			switch kind {
 			case "test", "debug":
 				continue
@@ -190,7 +260,7 @@ func NilGuardAnalyze(fn *ssa.Function, vals []ssa.Value, spec *NilGuardSpec) *Ni
 				// v flows on along the edges where it is an operand: each such predecessor must know v non-nil
 				okAll := true
 				for i, e := range phi.Edges {
-					if e == v && !res.KnownNonNil(phi.Block().Preds[i], v) {
+					if e == site.via && !res.KnownNonNil(phi.Block().Preds[i], v) {
 						okAll = false
 					}
 				}
